@@ -186,6 +186,54 @@ def many_requests_case(args) -> Dict[str, Any]:
     return {"problems": probs, "rounds": env.rounds, "requests": sent}
 
 
+def after_drop_case(args) -> Dict[str, Any]:
+    """a module could not take a message once (not writable in that round: the message was dropped and reported); afterwards, writable
+    again, it issues every kind of request - each is acknowledged as if nothing had happened (also after a second drop, and after a
+    successful delivery in between)"""
+    tc, ndrops, deliver_between, logger_first = args
+    from .. import lock, mmx
+
+    mmx.fresh_gc()
+    env = lock.Env(timecode=tc, fin_grace=0, hids={"A": 1, "B": 2, "G": 3})
+    a = hub.Alphabet(tc, {"A": (11, 0), "B": (12, 0), "G": (60, 1)})
+    probs: List[Dict[str, Any]] = []
+    sent = 0
+    try:
+        order = ("G", "A", "B") if logger_first else ("A", "B", "G")
+        for s in order:
+            for ev in a.connect_v2(s, name=s.encode()) + [["settle"]]:
+                env.apply(ev)
+        for ev in a.ctl("A", P.MT_SUBSCRIBE, T1) + [["settle"]]:
+            env.apply(ev)
+        base = sum(1 for k in env.received["A"] if k[0] == "ack")
+        for i in range(ndrops):
+            for ev in a.data("B", T1, b"drop" + bytes([i])):
+                env.apply(ev)
+            env.round(0, ["A"])
+            env.settle()
+        if deliver_between:
+            for ev in a.data("B", T2, b"none"):  # nobody subscribes to T2: nothing is written to A
+                env.apply(ev)
+            env.settle()
+        reqs = [(P.MT_SUBSCRIBE, T2), (P.MT_PAUSE_SUBSCRIPTION, T1), (P.MT_RESUME_SUBSCRIPTION, T1), (P.MT_UNSUBSCRIBE, T2), (P.MT_SUBSCRIBE, T1)]
+        for mt, t in reqs:
+            for ev in a.ctl("A", mt, t):
+                env.apply(ev)
+            sent += 1
+            env.settle()
+        for ev in a.data("B", T1, b"then"):
+            env.apply(ev)
+        env.settle()
+        probs += [dict(p) for p in env.problems if p["prop"] in ("C19", "C03")]
+        if not env.dead:
+            got = sum(1 for k in env.received["A"] if k[0] == "ack") - base
+            if got != sent:
+                probs.append({"prop": "C19", "kind": "ack-count-after-drop", "requests": sent, "acks_at_sender": got})
+    finally:
+        env.close()
+    return {"problems": probs, "rounds": env.rounds, "requests": sent}
+
+
 def run(tier: str) -> int:
     chk = core.Check("C19", tier, "model_checking",
                      "BFS to fixpoint over connection/subscription states of the real MessageManager with the "
@@ -207,6 +255,11 @@ def run(tier: str) -> int:
         totals["requests_of_one_module"] = totals.get("requests_of_one_module", 0) + r["requests"]
         for p in r["problems"]:
             chk.violation(f"{p['prop']}:{p['kind']}:many-requests", f"many requests {marg}: {p}", {"module": "vf.checks.c19", "many": list(marg)}, size=marg[1])
+    dargs = [(tc, nd, db, lf) for tc in (False, True) for nd in (1, 2, 3) for db in (False, True) for lf in (False, True)]
+    for darg, r in zip(dargs, core.pmap(after_drop_case, dargs)):
+        totals["transitions"] = totals.get("transitions", 0) + r["rounds"]
+        for p in r["problems"]:
+            chk.violation(f"{p['prop']}:{p['kind']}:after-drop", f"requests after a dropped delivery {darg}: {p}", {"module": "vf.checks.c19", "after_drop": list(darg)}, size=10)
     core.close_pool()
     trans = totals.get("transitions", 0) + totals.get("pair_transitions", 0)
     chk.merge_counts(totals)
@@ -216,9 +269,13 @@ def run(tier: str) -> int:
 
 
 def replay(case) -> int:
-    args = tuple(case["many"])
-    r = many_requests_case(args)
-    print(f"  many requests {args}")
+    if "after_drop" in case:
+        args = tuple(case["after_drop"])
+        r = after_drop_case(args)
+    else:
+        args = tuple(case["many"])
+        r = many_requests_case(args)
+    print(f"  case {args}")
     for p in r["problems"][:10]:
         print("  PROBLEM:", p)
     print("reproduced" if r["problems"] else "NOT reproduced")
